@@ -26,30 +26,33 @@
 EXTENDS Integers, Sequences, FiniteSets, TLC, SequencesExt
 
 PathName == <<
-  "p/charts/s1/templates/A.yaml",           \*  1  (differs from 4 only in letter case)
+  "p/charts/s1/templates/A.yaml",           \*  1  (differs from 5 only in letter case)
   "p/charts/s1/templates/NOTES.txt",        \*  2
   "p/charts/s1/templates/_h.tpl",           \*  3
-  "p/charts/s1/templates/a.yaml",           \*  4
-  "p/charts/s1/templates/b.yaml",           \*  5
-  "p/charts/s1/templates/sub/NOTES.txt",    \*  6  (a NOTES.txt below a sub-directory of templates/)
-  "p/charts/s2/templates/NOTES.txt",        \*  7
-  "p/charts/s2/templates/_h.tpl",           \*  8
-  "p/charts/s2/templates/a.yaml",           \*  9
-  "p/templates/A.yaml",                     \* 10  (differs from 14 only in letter case)
-  "p/templates/NOTES.txt",                  \* 11
-  "p/templates/_h.tpl",                     \* 12
-  "p/templates/_z.tpl",                     \* 13
-  "p/templates/a.yaml",                     \* 14
-  "p/templates/b.yaml",                     \* 15
-  "p/templates/c.yaml",                     \* 16
-  "p/templates/sub/NOTES.txt" >>            \* 17
+  "p/charts/s1/templates/_jobs/m.yaml",     \*  4  (an ordinary template in a directory whose name starts with "_")
+  "p/charts/s1/templates/a.yaml",           \*  5
+  "p/charts/s1/templates/b.yaml",           \*  6
+  "p/charts/s1/templates/sub/NOTES.txt",    \*  7  (a NOTES.txt below a sub-directory of templates/)
+  "p/charts/s2/templates/NOTES.txt",        \*  8
+  "p/charts/s2/templates/_h.tpl",           \*  9
+  "p/charts/s2/templates/a.yaml",           \* 10
+  "p/templates/A.yaml",                     \* 11  (differs from 16 only in letter case)
+  "p/templates/NOTES.txt",                  \* 12
+  "p/templates/_h.tpl",                     \* 13
+  "p/templates/_jobs/m.yaml",               \* 14  (an ordinary template in a directory whose name starts with "_")
+  "p/templates/_z.tpl",                     \* 15
+  "p/templates/a.yaml",                     \* 16
+  "p/templates/b.yaml",                     \* 17
+  "p/templates/c.yaml",                     \* 18
+  "p/templates/sub/NOTES.txt" >>            \* 19
 \* names for the ranks
-S1A == 1   S1N == 2   S1H == 3   S1a == 4   S1b == 5   S1SN == 6
-S2N == 7   S2H == 8   S2a == 9
-PA == 10   PN == 11   PH == 12   PZ == 13   Pa == 14   Pb == 15   Pc == 16   PSN == 17
-PChart == <<"s1", "s1", "s1", "s1", "s1", "s1", "s2", "s2", "s2", "p", "p", "p", "p", "p", "p", "p", "p">>
-PType  == <<"tpl", "notes", "part", "tpl", "tpl", "notes", "notes", "part", "tpl", "tpl", "notes", "part", "part", "tpl", "tpl", "tpl", "notes">>
-PSlash == <<4, 4, 4, 4, 4, 5, 4, 4, 4, 2, 2, 2, 2, 2, 2, 2, 3>>     \* strings.Count(name, "/")
+S1A == 1   S1N == 2   S1H == 3   S1J == 4   S1a == 5   S1b == 6   S1SN == 7
+S2N == 8   S2H == 9   S2a == 10
+PA == 11   PN == 12   PH == 13   PJ == 14   PZ == 15   Pa == 16   Pb == 17   Pc == 18   PSN == 19
+PChart == <<"s1", "s1", "s1", "s1", "s1", "s1", "s1", "s2", "s2", "s2", "p", "p", "p", "p", "p", "p", "p", "p", "p">>
+PType  == <<"tpl", "notes", "part", "tpl", "tpl", "tpl", "notes", "notes", "part", "tpl",
+            "tpl", "notes", "part", "tpl", "part", "tpl", "tpl", "tpl", "notes">>
+PSlash == <<4, 4, 4, 5, 4, 4, 5, 4, 4, 4, 2, 2, 2, 3, 2, 2, 2, 2, 3>>     \* strings.Count(name, "/")
 ParentNotes == PN                                        \* path.Join(ch.Name(), "templates", "NOTES.txt")
 ChartRank(c) == CASE c = "p" -> 0 [] c = "s1" -> 1 [] c = "s2" -> 2 [] OTHER -> 9
 
@@ -118,12 +121,13 @@ NoDup(s) == \A a, b \in DOMAIN s : a # b => s[a] # s[b]
 
 \* classes: what the hook annotation of a document looks like (or that the document is empty)
 PlainCls   == {"plain", "annot"}            \* no annotation / only an annotation that is not helm.sh/hook
-HookCls    == {"hook1", "hookw", "hook2"}   \* helm.sh/hook names known events only
+HookCls    == {"hook1", "hookw", "hook2", "hookU"}   \* helm.sh/hook names known events only (event names are
+                                                     \* case-insensitive: hookU is spelled "Pre-Install", hook2 "pre-install, POST-UPGRADE")
 DropCls    == {"unk", "mixed"}              \* an unknown event / a known and an unknown event
 EmptyCls   == {"blank", "comment"}          \* whitespace only / comments only
 AllCls     == PlainCls \cup HookCls \cup DropCls \cup EmptyCls
 
-HookEv(c)  == CASE c = "hook1" -> <<"pre-install">>
+HookEv(c)  == CASE c \in {"hook1", "hookU"} -> <<"pre-install">>
                 [] c = "hookw" -> <<"post-install">>
                 [] c = "hook2" -> <<"pre-install", "post-upgrade">>
                 [] OTHER -> <<>>
@@ -143,7 +147,9 @@ ErrProgs == {"ENV", "EXPANDENV"}                 \* functions that must not exis
 \*   MUT  prefixes the name of every element of the default list .Values.ports with the release name and prints it;
 \*   FAIL aborts the render with its own message
 StateProgs == {"SET", "GET", "GETS", "MUT"}
-Progs    == {"LIT", "VAL", "FGET", "FGLOB", "FOUT", "DNS", "FAIL"} \cup IncProgs \cup ErrProgs \cup StateProgs
+\*   CAPV prints .Capabilities.KubeVersion.Version (not judged: "*"), CAPA prints .Capabilities.APIVersions.Has of an
+\*   API version that only an --api-versions option could add (the enumerated inputs carry no such option: "false")
+Progs    == {"LIT", "VAL", "FGET", "FGLOB", "FOUT", "DNS", "FAIL", "CAPV", "CAPA"} \cup IncProgs \cup ErrProgs \cup StateProgs
 
 FileOf(inp, p) == inp.files[CHOOSE j \in DOMAIN inp.files : inp.files[j].p = p]
 TplPaths(inp)  == {inp.files[j].p : j \in DOMAIN inp.files}
@@ -166,6 +172,8 @@ Payload(g, ch, w, dns) ==
     [] g = "FGLOB" -> "files/a.txt;files/b.txt;"
     [] g = "FOUT"  -> "[]"
     [] g = "DNS"   -> IF dns THEN "*" ELSE "[]"       \* "*" = not judged (resolution was enabled)
+    [] g = "CAPV"  -> "*"
+    [] g = "CAPA"  -> "false"
     [] OTHER       -> "?"
 
 (* The files of a chart share one scope (.Values is ONE map), and the engine executes the files in   *)
